@@ -44,6 +44,10 @@ pub struct Case {
     pub strategies: Vec<St>,
     pub listed: Vec<bool>,
     pub tokens: Vec<i64>,
+    /// When set: the cluster state is first built from THIS topology (nodes enabled, so that `Node` objects
+    /// are carried over) and then refreshed to `topo` - fully or, with `true`, by a partial topology refresh.
+    /// `absent_before` lists nodes of `topo` that the earlier topology did not have (they join with the refresh).
+    pub prior: Option<(Topology, bool, Vec<usize>)>,
 }
 
 impl Case {
@@ -52,6 +56,7 @@ impl Case {
             "topology": self.topo.to_json(),
             "strategies": self.strategies.iter().map(St::to_json).collect::<Vec<_>>(),
             "listed": self.listed,
+            "prior": self.prior.as_ref().map(|(t, partial, absent)| json!({"topology": t.to_json(), "partial_refresh": partial, "absent_before": absent})),
         })
     }
     fn from_json(v: &Value) -> Option<Case> {
@@ -61,7 +66,10 @@ impl Case {
         if listed.len() != strategies.len() {
             return None;
         }
-        Some(Case { topo, strategies, listed, tokens: Vec::new() })
+        let prior = Topology::from_json(&v["prior"]["topology"]).map(|t| {
+            (t, v["prior"]["partial_refresh"].as_bool().unwrap_or(false), v["prior"]["absent_before"].as_array().map(|a| a.iter().filter_map(|x| x.as_u64()).map(|x| x as usize).collect()).unwrap_or_default())
+        });
+        Some(Case { topo, strategies, listed, tokens: Vec::new(), prior })
     }
 }
 
@@ -353,8 +361,38 @@ pub fn eval_case(o: &mut Outcome, rt: &tokio::runtime::Runtime, case: &Case, onl
     let nodes = &t.nodes;
     let peers = t.peers();
     let filter: Arc<dyn HostFilter> = Arc::new(RejectAll);
-    let probe_a = rt.block_on(ClusterProbe::new(&peers, &topo::keyspaces(&case.strategies, &case.listed), Some(filter.clone())));
-    let probe_b = rt.block_on(ClusterProbe::new(&peers, &[], Some(filter)));
+    let kss = topo::keyspaces(&case.strategies, &case.listed);
+    let (probe_a, probe_b) = match &case.prior {
+        None => (rt.block_on(ClusterProbe::new(&peers, &kss, Some(filter.clone()))), rt.block_on(ClusterProbe::new(&peers, &[], Some(filter)))),
+        Some((pt, partial, absent)) => {
+            o.class(if *partial { "refreshed:partial-topology-refresh" } else { "refreshed:full-refresh" });
+            let mut pp = pt.peers();
+            pp.retain(|p| !absent.contains(&topo::index_of(p.host_id)));
+            let r = fw::catch(|| {
+                rt.block_on(async {
+                    // enabled nodes: their `Node` objects are carried over or re-created by the refresh
+                    let mut a = ClusterProbe::new(&pp, &kss, None).await;
+                    let mut b = ClusterProbe::new(&pp, &[], None).await;
+                    if *partial {
+                        a.refresh_topology(&peers).await;
+                        b.refresh_topology(&peers).await;
+                    } else {
+                        a.refresh(&peers, &kss).await;
+                        b.refresh(&peers, &[]).await;
+                    }
+                    (a, b)
+                })
+            });
+            match r {
+                Ok(x) => x,
+                Err(p) => {
+                    let site = Site { case, k: 0, token: 0, path: "refresh" };
+                    viol!(o, "refreshed:panic".to_string(), format!("building or refreshing the cluster state panicked: {p} | {}", site.describe()), site.replay());
+                    return;
+                }
+            }
+        }
+    };
     let (state_a, state_b): (&ClusterState, &ClusterState) = (probe_a.state(), probe_b.state());
     let dup = t.has_duplicate_tokens();
     classify_topology(o, t);
@@ -468,7 +506,34 @@ pub fn gen_case(rng: &mut Rng, token_cap: usize) -> Case {
     let all = rng.chance(1, 6);
     let listed: Vec<bool> = strategies.iter().map(|_| all || rng.bool()).collect();
     let tokens = topo::query_tokens(rng, &t, token_cap);
-    Case { topo: t, strategies, listed, tokens }
+    Case { topo: t, strategies, listed, tokens, prior: None }
+}
+
+/// An earlier topology of the same cluster: some nodes in another rack / datacenter / with other tokens, some
+/// not there yet, some extra nodes that will have left.
+pub fn gen_prior(rng: &mut Rng, t: &Topology) -> (Topology, bool, Vec<usize>) {
+    let mut p = t.clone();
+    let dcs: Vec<Option<String>> = {
+        let mut v: Vec<Option<String>> = t.nodes.iter().map(|n| n.dc.clone()).collect();
+        v.push(Some("dc-old".into()));
+        v
+    };
+    for n in p.nodes.iter_mut() {
+        match rng.below(8) {
+            0 | 1 => n.rack = Some(format!("old-rack-{}", rng.below(3))),
+            2 => n.rack = None,
+            3 => n.dc = rng.pick(&dcs).clone(),
+            4 => n.tokens = n.tokens.iter().map(|x| x.wrapping_add(rng.range(-1000, 1000))).collect(),
+            _ => {}
+        }
+    }
+    let absent: Vec<usize> = (0..t.nodes.len()).filter(|_| rng.chance(1, 6)).collect();
+    // nodes that exist only before the refresh
+    for _ in 0..rng.usize(0, 2) {
+        let like = rng.pick(&t.nodes).clone();
+        p.nodes.push(MNode { dc: like.dc, rack: like.rack, tokens: (0..rng.usize(1, 3)).map(|_| rng.u64() as i64).collect() });
+    }
+    (p, rng.bool(), absent)
 }
 
 fn mnode(dc: Option<&str>, rack: Option<&str>, tokens: &[i64]) -> MNode {
@@ -519,6 +584,7 @@ fn literal_cases() -> Vec<Case> {
         strategies: vec![St::Simple(2), rf(2, 2), rf(3, 3), rf(0, 2), rf(4, 1), St::Local],
         listed: vec![true, true, false, true, false, false],
         tokens: vec![40, 50, 51, 160, 200, 701, 900, 901, i64::MAX, i64::MIN + 1],
+        prior: None,
     };
     // one datacenter, racks {r0: 3 nodes, r1: 1 node, None: 1 node}; RF sweeps across the rack count
     let racks = Case {
@@ -535,8 +601,20 @@ fn literal_cases() -> Vec<Case> {
         strategies: (0..=7).map(|r| St::Nts(BTreeMap::from([("eu".to_owned(), r)]))).chain([St::Simple(3), St::Other]).collect(),
         listed: vec![false, true, false, true, true, false, true, false, true, false],
         tokens: vec![9, 10, 11, 25, 26, 40, 41, i64::MAX, i64::MIN + 1],
+        prior: None,
     };
-    vec![repo, racks]
+    // the same two rings reached through a refresh: every node was in another rack before
+    let mut out = vec![repo.clone(), racks.clone()];
+    for (c, partial) in [(repo, false), (racks, true)] {
+        let mut prior = c.topo.clone();
+        for n in prior.nodes.iter_mut() {
+            n.rack = Some("previous-rack".into());
+        }
+        let mut c2 = c;
+        c2.prior = Some((prior, partial, vec![]));
+        out.push(c2);
+    }
+    out
 }
 
 fn replay(path: &str) -> Outcome {
@@ -611,8 +689,12 @@ pub fn run(ctx: &Ctx) -> Outcome {
             }
         }
         let mine = (total as usize + workers - 1 - w) / workers;
-        for _ in 0..mine {
-            let c = gen_case(&mut rng, token_cap);
+        for i in 0..mine {
+            let mut c = gen_case(&mut rng, token_cap);
+            // every eighth ring is reached through a refresh of an earlier topology of the same cluster
+            if i % 8 == 3 && !c.topo.nodes.is_empty() {
+                c.prior = Some(gen_prior(&mut rng, &c.topo));
+            }
             eval_case(&mut o, &rt, &c, None, &mut rng);
             o.note_add("topologies", 1);
         }
